@@ -17,7 +17,8 @@ Inductive value :=
 | VX (b : bytes)             (* bytes copied out of the view: arrays, netip.Addr, CopyMAC/CopyIP *)
 | VS (s : string)            (* LLC.Type *)
 | VL (l : list value)        (* []net.IP, option maps, records *)
-| VU.                        (* the call returned; its value is not observed (String) *)
+| VU                         (* the call returned; its value is not observed (String, decoded option structs) *)
+| VE.                        (* the call returned a non-nil error *)
 
 (* every aliasing range contained in a value *)
 Fixpoint ranges (x : value) : list (nat * nat) :=
@@ -107,13 +108,16 @@ Definition getters_ok (fs : list finding) (t : gtable) (v : slice) : Prop :=
    the view (positions per RFC), outside the known classes.  The spec table
    has the same names in the same order as the getter table. *)
 Definition spec := bytes -> value.
-Definition stable := list (string * spec).
+(* [None]: the method is not a field getter with an RFC position (option-list decoders); only C01 applies *)
+Definition stable := list (string * option spec).
 Definition getters_spec (fs : list finding) (t : gtable) (st : stable) (v : slice) : Prop :=
   Forall2 (fun ng ns => fst ng = fst ns /\
-                        (known_of fs (fst ng) v = false -> snd ng v = Ok (snd ns (view v)))) t st.
+                        forall s, snd ns = Some s ->
+                        known_of fs (fst ng) v = false -> snd ng v = Ok (s (view v))) t st.
 
 (* C01, second half of "stays inside the view": the result depends only on
    the bytes within the length, for every capacity *)
-Definition getters_len_only (fs : list finding) (t : gtable) (v v' : slice) : Prop :=
-  Forall (fun ng => known_of fs (fst ng) v = false -> known_of fs (fst ng) v' = false ->
-                    snd ng v = snd ng v') t.
+Definition getters_len_only (fs : list finding) (t : gtable) (st : stable) (v v' : slice) : Prop :=
+  Forall2 (fun ng ns => snd ns <> None ->
+                        known_of fs (fst ng) v = false -> known_of fs (fst ng) v' = false ->
+                        snd ng v = snd ng v') t st.
